@@ -2537,7 +2537,7 @@ func (x *x3) print() string {
 	var b strings.Builder
 	w := func(format string, a ...interface{}) { fmt.Fprintf(&b, format, a...) }
 	w("(* GENERATED on every check by `harness translate3` from the Go SOURCE — do not edit.\n")
-	w("   source directory: %s   (module %s)\n\n", x.root, x.modpath)
+	w("   source: the tree the harness was built against (module %s)\n\n", x.modpath)
 	w("   Semantics (vocabulary: lib/GoMem.v, lib/GoSlices.v; translator: harness/translate3.go):\n")
 	w("   - every function is a computation M T = world -> res (T * world): Ok (t, world'), Panic (a Go\n")
 	w("     run-time panic: index / slice bounds, make) or OutOfFuel; several Go results are a tuple.\n")
